@@ -9,6 +9,7 @@ use std::os::unix::net::UnixStream;
 use std::sync::atomic::{AtomicBool, AtomicU64, Ordering};
 use std::sync::{Arc, Barrier};
 use std::time::Duration;
+use vhost::vhost_user::gpu_message;
 use vhost::vhost_user::message::*;
 use vhost::vhost_user::{Backend, Frontend, GpuBackend, VhostUserFrontend, VhostUserFrontendReqHandler};
 use vhost::VhostBackend;
@@ -38,8 +39,9 @@ fn peer_loop(mut s: UnixStream, delay: i32, acks: Arc<AtomicBool>, overlaps: Arc
         }
         let reply_body: Option<Vec<u8>> = if gpu {
             match code {
-                1 => Some(0x55u64.to_le_bytes().to_vec()),
-                _ => None,
+                1 => Some(0x55u64.to_le_bytes().to_vec()), // GET_PROTOCOL_FEATURES
+                10 => Some(vec![]),                          // DMABUF_UPDATE: empty acknowledgement
+                _ => None,                                   // CURSOR_POS and the like: no answer
             }
         } else {
             match code {
@@ -187,22 +189,32 @@ pub fn run(args: &[Val]) -> Val {
         }
         "gpu" => {
             let g = GpuBackend::from_stream(a);
-            for (i, _) in ops.iter().cloned().enumerate() {
+            for (i, (op, _)) in ops.iter().cloned().enumerate() {
                 let (p, bar, tx) = (g.clone(), barrier.clone(), tx.clone());
                 std::thread::spawn(move || {
                     bar.wait();
                     let mut r = "ok".to_string();
-                    for _ in 0..reps {
-                        match p.get_protocol_features() {
-                            Ok(v) if v.value == 0x55 => {}
-                            Ok(v) => {
-                                r = format!("wrong:{}", v.value);
-                                break;
+                    for k in 0..reps {
+                        let r1 = match op.as_str() {
+                            // acknowledged: the request and the reading of its (empty) acknowledgement
+                            "update_dmabuf_scanout" => {
+                                let u = gpu_message::VhostUserGpuUpdate { scanout_id: 1, x: k as u32, y: 2, width: 3, height: 4 };
+                                if p.update_dmabuf_scanout(&u).is_ok() { "ok".to_string() } else { "err".to_string() }
                             }
-                            Err(_) => {
-                                r = "err".to_string();
-                                break;
+                            // fire and forget
+                            "cursor_pos" => {
+                                let c = gpu_message::VhostUserGpuCursorPos { scanout_id: 1, x: k as u32, y: 2 };
+                                if p.cursor_pos(&c).is_ok() { "ok".to_string() } else { "err".to_string() }
                             }
+                            _ => match p.get_protocol_features() {
+                                Ok(v) if v.value == 0x55 => "ok".to_string(),
+                                Ok(v) => format!("wrong:{}", v.value),
+                                Err(_) => "err".to_string(),
+                            },
+                        };
+                        if r1 != "ok" {
+                            r = r1;
+                            break;
                         }
                     }
                     let _ = tx.send((i, r));
